@@ -338,6 +338,8 @@ class Frame:
 
 
 class Machine:
+    max_depth = 60          # call depth bound (harnesses over deep trees raise it)
+
     def __init__(self, module, adts, contracts, ctx, repo='/repo', overrides=None, max_steps=200000, defindex=None, extra_modules=()):
         self.extra_modules = list(extra_modules)   # modules whose functions may be entered when neither the calling crate nor a contract knows the callee
         self.module = module
@@ -906,7 +908,7 @@ class Machine:
         for (n, ty), v in zip(fn.params, args):
             fr.locals[n] = v
         self.depth += 1
-        if self.depth > 60:
+        if self.depth > self.max_depth:
             raise EncoderGap('recursion depth (unbounded recursion?) at %s' % fn.name)
         try:
             return self.run_blocks(fr)
